@@ -4,6 +4,8 @@ package main
 // z3 (4.8.12) and cvc5; first definitive answer wins.
 
 import (
+	"strconv"
+	"sort"
 	"regexp"
 	"bytes"
 	"context"
@@ -29,6 +31,19 @@ var solvers = []solverSpec{
 		return []string{"cvc5", fmt.Sprintf("--tlimit=%d", t*1000), "--strings-exp", "--produce-models", f}
 	}},
 }
+
+// retrySolvers: the portfolio plus seeded variants of the two z3 binaries
+var retrySolvers = append(append([]solverSpec{}, solvers...),
+	solverSpec{"z3-new-5.1.0/seed7", func(f string, t int) []string {
+		return []string{"z3-new", "smt.random_seed=7", "sat.random_seed=7", fmt.Sprintf("-T:%d", t), f}
+	}},
+	solverSpec{"z3-new-5.1.0/seed42", func(f string, t int) []string {
+		return []string{"z3-new", "smt.random_seed=42", "sat.random_seed=42", fmt.Sprintf("-T:%d", t), f}
+	}},
+	solverSpec{"z3-4.8.12/seed7", func(f string, t int) []string {
+		return []string{"/usr/bin/z3", "smt.random_seed=7", fmt.Sprintf("-T:%d", t), f}
+	}},
+)
 
 type solveResult struct {
 	status  string // unsat sat unknown timeout error
@@ -324,8 +339,10 @@ func dischargeAll(obls []*Obligation, prelude *Prelude, workDir string, timeoutS
 		go func() {
 			defer wg.Done()
 			defer func() { <-sem2 }()
-			r := solve(o.File, timeoutS*4, wantUnsat)
-			if r.status == "unsat" && r.backend == solvers[0].name && !fnSanity(o.Fn, workDir, prelude, obls) {
+			// the second chance also varies z3's random seed: a borderline obligation that one run of a solver misses
+			// is usually found under another seed (the same effect as an incidental renaming in the query)
+			r := solveWith(o.File, timeoutS*4, wantUnsat, retrySolvers)
+			if r.status == "unsat" && strings.HasPrefix(r.backend, "z3-new") && !fnSanity(o.Fn, workDir, prelude, obls) {
 				r = solveWith(o.File, timeoutS*4, wantUnsat, solvers[1:])
 			}
 			if r.status == "unsat" || r.status == "sat" {
@@ -410,5 +427,86 @@ func pruneUnusedConsts(text string) string {
 			}
 		}
 	}
-	return strings.Join(out, "\n")
+	return renumberStrings(strings.Join(out, "\n"))
+}
+
+// renumberStrings renames the remaining string-literal constants by the rank of their literal (taken from the
+// declaration's comment / definition), so that the text does not depend on the order in which literals were first met.
+func renumberStrings(text string) string {
+	lines := strings.Split(text, "\n")
+	lit := map[string]string{}
+	for _, l := range lines {
+		if m := reStrDecl.FindStringSubmatch(l); m != nil {
+			if _, seen := lit[m[1]]; !seen {
+				rest := l[len(m[0]):]
+				lit[m[1]] = rest
+			}
+		}
+	}
+	if len(lit) == 0 {
+		return text
+	}
+	toks := make([]string, 0, len(lit))
+	for t := range lit {
+		toks = append(toks, t)
+	}
+	sort.Slice(toks, func(i, j int) bool {
+		if lit[toks[i]] != lit[toks[j]] {
+			return lit[toks[i]] < lit[toks[j]]
+		}
+		return toks[i] < toks[j]
+	})
+	ren := map[string]string{}
+	for i, t := range toks {
+		ren[t] = fmt.Sprintf("str!c%d", i)
+	}
+	// declaration / length / scat lines are kept together per constant and emitted in rank order at the position of the
+	// first of them
+	var head, tail []string
+	per := map[string][]string{}
+	first := -1
+	for i, l := range lines {
+		owner := ""
+		switch {
+		case reStrDecl.MatchString(l):
+			owner = reStrDecl.FindStringSubmatch(l)[1]
+		case reStrLen.MatchString(l):
+			owner = reStrLen.FindStringSubmatch(l)[1]
+		case reStrCat.MatchString(l):
+			owner = reStrCat.FindStringSubmatch(l)[1]
+		}
+		if owner != "" {
+			if first < 0 {
+				first = i
+			}
+			per[owner] = append(per[owner], l)
+			continue
+		}
+		if first < 0 {
+			head = append(head, l)
+		} else {
+			tail = append(tail, l)
+		}
+	}
+	var mid []string
+	for _, t := range toks {
+		mid = append(mid, per[t]...)
+	}
+	all := strings.Join(append(append(head, mid...), tail...), "\n")
+	all = reStrTok.ReplaceAllStringFunc(all, func(t string) string {
+		if n, ok := ren[t]; ok {
+			return n
+		}
+		return t
+	})
+	// the distinct line lists the constants in rank order
+	return regexp.MustCompile(`(?m)^\(assert \(distinct (str!c[0-9]+ ?)+\)\)$`).ReplaceAllStringFunc(all, func(l string) string {
+		ks := regexp.MustCompile(`str!c[0-9]+`).FindAllString(l, -1)
+		sort.Slice(ks, func(i, j int) bool {
+			a, _ := strconv.Atoi(ks[i][5:])
+			b, _ := strconv.Atoi(ks[j][5:])
+			return a < b
+		})
+		return "(assert (distinct " + strings.Join(ks, " ") + "))"
+	})
 }
